@@ -1285,6 +1285,21 @@ func Run(c *hx.Ctx) error {
 			sc.runCond(c, r)
 			done++
 		}
+		// write batches through the real PointsWriter.routeAndMapOriginRows (batch.go)
+		if bs, berr := genBatchScenario(r, c); berr != nil {
+			c.Count("skipped:batch-scenario:" + strings.SplitN(berr.Error(), ":", 2)[0])
+		} else {
+			bs.emitCatalogue(c)
+			if bs.isRange {
+				c.Count("bmeta:range")
+			} else {
+				c.Count("bmeta:hash")
+			}
+			nb := 3 + r.Intn(8)
+			for i := 0; i < nb; i++ {
+				bs.runBatch(c, r)
+			}
+		}
 	}
 	return nil
 }
